@@ -46,6 +46,19 @@ pub fn parse_docs(bytes: &[Vec<u8>]) -> Result<Element<String>, Failure> {
     })
 }
 
+/// parse(D1), extend(D2), ... with a rendering after every step (both sort orders alternate): what callers do who show a
+/// preview after every file; the renderings are discarded
+pub fn parse_docs_observed(bytes: &[Vec<u8>]) -> Result<Element<String>, Failure> {
+    let mut root: Option<Element<String>> = None;
+    for (i, b) in bytes.iter().enumerate() {
+        let r = sut::parse_with(b, root.take(), &sut::ReaderCfg::default_slice())
+            .map_err(|e| Failure::new(format!("well-formed document #{} was rejected: {}", i + 1, e)).with_signature("reject_wellformed"))?;
+        let _ = r.to_serde_struct(&sut::opts_quick(i % 2 == 1, "Debug"));
+        root = Some(r);
+    }
+    root.ok_or_else(|| Failure::new("no document"))
+}
+
 pub fn render_tree(root: &Element<String>, opts: &Options) -> Result<(String, Vec<StructDef>, RNode), Failure> {
     let src = root.to_serde_struct(opts);
     let defs = read_both(&src).map_err(|e| Failure::new(format!("rendered output unreadable: {}\n{}", e, src)).with_signature("unreadable_output"))?;
